@@ -826,6 +826,22 @@ class Sim:
                          {"op": op, "left": nx, "right": ny, "result": nr,
                           "note": "result of a mixed-registry operation is bound to a third registry"},
                          [op["k"], op.get("f", ""), "third"])
+        elif (nr != nx and isinstance(nx, int) and op["k"] in ("binop", "unitop")
+              and hasattr(x, "is_Unit") == hasattr(y, "is_Unit")):
+            # array (op) array and Unit (op) Unit: the right operand's registry is allowed only as the
+            # documented fallback - the left registry cannot resolve a symbol of one of the operands
+            # (array.py _multiply_units / _divide_units).  Not applied to x.to(unit_of_B) (the caller asked
+            # for that very unit object) nor to Unit * array (a label applied to data: the data's registry
+            # comes first by construction, unit_object.py Unit.__mul__).
+            left = next(n for n in w.nodes if n.id == nx)
+            syms = sorted(tokens(str(x.units.expr)) | tokens(str(y.units.expr)))
+            unresolved = [t for t in syms if t not in left.model and rw.derive(t, left.model) is None]
+            if not unresolved:
+                self.violate("cross-registry", ["C13"],
+                             {"op": op, "left": nx, "right": ny, "result": nr, "symbols": syms,
+                              "note": "the left operand's registry resolves every symbol of the result, yet the "
+                                      "result is bound to the right operand's registry"},
+                             [op["k"], op.get("f", ""), "right-not-left"])
 
     def after_step(self, op):
         """Invariants checked after every executed step."""
